@@ -136,7 +136,7 @@ class C16(Prop):
     known_matchers["F6"] = lambda spec, sig, msg: spec.get("kind") == "sho" and sig in F6_SIGS
 
     def budget(self, tier):
-        return dict(examples=1400, shards=16) if tier == "quick" else dict(examples=48000, shards=16)
+        return dict(examples=1400, shards=16) if tier == "quick" else dict(examples=40000, shards=16)
 
     def strategy(self, tier):
         return st.integers(0, 9).flatmap(lambda k: basis_cases(tier) if k < 7 else model_strategy(tier))
